@@ -6,6 +6,7 @@ from harness import core, gen, common
 
 ID = 'C13'
 LEAN_TARGETS = ['Props.C13']
+TIE_A = ['g3c_rotor_between_planes_eq']
 OBLIGATIONS = ['C13.intertwining', 'C13.rotor_carries', 'C13.translation_fixes_einf']
 PARTIAL = ['existence and choice of the normalising root (Dorst-Valkenburg), the special-position branches, motor_between_rounds, rotor roots, logarithm/exponential pairs '
            'and interpolation have no Lean theorem: decided by evaluation on the implementation over objects built from integer points']
